@@ -93,10 +93,23 @@ class World:
         if kind == "edit":
             if self.returned:
                 t = self.returned[step[1] % len(self.returned)]
-                nodes = [n for n in t.flatten() if not n.symbol.is_terminal]
-                if nodes:
+                from fandango.language.symbols import Terminal
+
+                allnodes = list(t.flatten())
+                nodes = [n for n in allnodes if not n.symbol.is_terminal]
+                leaves = [n for n in allnodes if n.symbol.is_terminal]
+                how = step[3] % 4
+                if how >= 2 and leaves:
+                    # the caller edits a LEAF of its tree: another terminal / frozen
+                    n = leaves[step[2] % len(leaves)]
+                    if how == 2:
+                        n.symbol = Terminal("#")
+                    else:
+                        n.read_only = True
+                    self.edited = True
+                elif nodes:
                     n = nodes[step[2] % len(nodes)]
-                    n.set_children(list(n.children[:-1]) if step[3] % 2 and n.children else [])
+                    n.set_children(list(n.children[:-1]) if how % 2 and n.children else [])
                     self.edited = True
             return []
         key = repr(step)
@@ -118,7 +131,11 @@ class World:
             with Fuel(60000):
                 got_trees = self.request(self.f, step)
             got: Any = [S.shape(t) for t in got_trees]
+            frozen = [i for i, t in enumerate(got_trees) if any(n.read_only for n in t.flatten())]
             self.returned.extend(got_trees[:3])
+            if frozen and kind != "fuzz":
+                return [f"request {step!r} yields tree(s) {frozen} with read-only nodes: a fresh parse result has none "
+                        f"(a node of an earlier result, frozen by its owner, was handed out again)"]
         except FuelExhausted:
             return [f"request {step!r} exceeded the parser budget on the used object but not on a fresh one"]
         except Exception as e:
@@ -203,7 +220,7 @@ def make_machine(ctx: Any) -> Any:
         def fuzz(self, seed: int) -> None:
             self._do(["fuzz", seed])
 
-        @rule(i=st.integers(0, 50), j=st.integers(0, 50), k=st.integers(0, 3))
+        @rule(i=st.integers(0, 50), j=st.integers(0, 50), k=st.integers(0, 7))
         def edit(self, i: int, j: int, k: int) -> None:
             self._do(["edit", i, j, k])
 
